@@ -511,6 +511,33 @@ fn arbitrary_len<V: Backend>(a: &Value) -> (bool, String) {
     }
     (false, "no panic".into())
 }
+/// C04: a password-wrapped blob whose parameter block is the solver's (remaining bytes arbitrary)
+/// must make get_params / unwrap return Ok or Err, never panic
+fn pw_params<V: Backend>(a: &Value) -> (bool, String) {
+    let pb = bytes(a, "params");
+    let off = num(a, "off", 16) as usize;
+    let total = num(a, "len", 92) as usize;
+    let mut blob = vec![0x42u8; total];
+    for (i, b) in pb.iter().enumerate() {
+        if off + i < total {
+            blob[off + i] = *b;
+        }
+    }
+    let whole = bytes(a, "blob");
+    if !whole.is_empty() {
+        blob = whole;
+    }
+    let r = catch_unwind(AssertUnwindSafe(|| {
+        let _ = V::get_params(&blob);
+        let mut b2 = blob.clone();
+        let _ = V::pw_unwrap_key(".local-pw.", b"pw", &mut b2);
+    }));
+    if r.is_err() {
+        (true, format!("CONDITION panic\npw_unwrap_key panicked on a blob with parameter block {:02x?}", pb))
+    } else {
+        (false, "no panic".into())
+    }
+}
 fn sk_inner<V: HasKey<PkeSecret>>(k: &Key<V, PkeSecret>) -> <V as HasKey<PkeSecret>>::Key {
     <V as HasKey<PkeSecret>>::decode(k.expose_key().as_raw_bytes()).unwrap()
 }
@@ -519,6 +546,7 @@ fn dispatch<V: Backend>(recipe: &str, a: &Value, vh: &str, kh: &str) -> (bool, S
     let _ = kh;
     match recipe {
         "arbitrary_len" => arbitrary_len::<V>(a),
+        "pw_params" => pw_params::<V>(a),
         #[cfg(getrandom_backend = "custom")]
         "rng_fail" => rng_fail::<V>(a),
         "local_roundtrip" => local_roundtrip::<V>(a),
